@@ -109,6 +109,21 @@ def suite_msg(ctx):
             admissible = r.service.has_response_data() or not r.data
             if admissible and re_ != 'ok ' + hx(p):
                 s.fail({'site': 'Response.reencode', 'input': p.hex(), 'observed': re_, 'required': 'ok ' + hx(p)})
+        if r.valid and r.service.has_response_data() and (len(p) < 2 or p[1] % 8 == 0):
+            # a parsed object is an object like any other: with its data assigned anew, its payload is the payload of the object it now is
+            r3 = Response.from_payload(p)
+            newd = bytes([len(p) & 0xFF, 0xA5]) if r3.positive else b'\x5a'
+            r3.data = newd
+            s.evaluations += 1
+            try:
+                q = Response.from_payload(r3.get_payload())
+                got = (q.service, q.code, q.positive, q.data, q.valid)
+            except Exception as e:  # noqa
+                got = type(e).__name__
+            want = (r3.service, r3.code, r3.positive, newd, True)
+            if got != want:
+                s.fail({'site': 'Response.roundtrip', 'input': p.hex(), 'class': 'parsed object whose data was assigned anew',
+                        'observed': str(got), 'required': 'parse(payload) gives the fields of the object back: data %s' % newd.hex()})
         if len(p) <= 2 and (len(p) < 2 or p[1] % 16 == 0):
             # parsing is a function of the payload alone: the caller edits the object it was given, the same payload is parsed again
             from .. import declib
@@ -135,6 +150,22 @@ def suite_msg(ctx):
         if r.service is not None and (not r.service.use_subfunction() or len(p) >= 2):
             if re_ != 'ok ' + hx(p):
                 s.fail({'site': 'Request.reencode', 'input': p.hex(), 'observed': re_, 'required': 'ok ' + hx(p)})
+        if r.service is not None and (len(p) < 2 or p[1] % 8 == 0):
+            r3 = Request.from_payload(p)
+            r3.data = b'\x5a\x00'
+            if r3.service.use_subfunction():
+                r3.subfunction = 0x2B
+                r3.suppress_positive_response = not r3.suppress_positive_response
+            s.evaluations += 1
+            try:
+                q = Request.from_payload(r3.get_payload())
+                got = (q.service, q.subfunction, q.suppress_positive_response, q.data)
+            except Exception as e:  # noqa
+                got = type(e).__name__
+            want = (r3.service, r3.subfunction if r3.service.use_subfunction() else None, r3.suppress_positive_response, b'\x5a\x00')
+            if got != want:
+                s.fail({'site': 'Request.roundtrip', 'input': p.hex(), 'class': 'parsed object whose fields were assigned anew',
+                        'observed': str(got), 'required': str(want)})
     core.compare(s, lines, core.drv_batch(lines), impl, lambda i, o: not o.startswith('svc=-'))
 
     # ---- builders
